@@ -204,6 +204,16 @@ def run(ctx, proof):
         mag = max(abs(float(x)) for v in sample_games for x in v) * 2 ** n or 1.0
         ctx.count("expected_greedy_value_scale", str(vscale))
         max_steps = rng.randint(1, 3)
+        if eg_i == 0:
+            # a full-length run on a plateau gap (l-infinity): from some step on no remaining coalition improves the gap
+            n, gapn, max_steps, vscale = 3, "linf_norm", 3, Fraction(1)
+            sample_games = [games.sa_closure_game(rng, n, "int", neg_singletons=False)]
+            mag = max(abs(float(x)) for v in sample_games for x in v) * 2 ** n or 1.0
+        elif eg_i == 2:
+            # ... and a full-length run on a factory game, whose gap closes after 7 of the 10 reveals
+            n, gapn, max_steps, vscale = 4, "l1_norm", 10, Fraction(1)
+            sample_games = [[Fraction(x) for x in campaign.repo_generator_game(rng, 4, ["factory"])[0]]]
+            mag = max(abs(float(x)) for v in sample_games for x in v) * 2 ** n or 1.0
         results = []
         for procs in ([1, 2] if ctx.quick else [1, 2, 4]):
             env, feed = envlib.make_env(n, comp, gapn, max_steps, games.minimal_ids(n), sample_games)
